@@ -236,6 +236,7 @@ def big_trees():
 
 def run_shard(cfg):
     rec = Rec(cfg)
+    rec.extra['first_use'] = zoo.warm_up(cfg['k'])
     U = zoo.universe(zoo.U_TRAV)
     idx = 0
     for j, d in enumerate(big_trees()):
